@@ -1,6 +1,7 @@
 import FastorModel.Proofs.Reduce
 import FastorModel.Model.Horizontal
 import Mathlib.Order.MinMax
+import Mathlib.Tactic.FinCases
 import Mathlib.LinearAlgebra.Matrix.Determinant.Basic
 import Mathlib.LinearAlgebra.Matrix.Block
 /-
@@ -150,6 +151,14 @@ theorem trace_correct (x : Nat → R) (M : Nat) :
   have : i * (M + 1) = i * M + i := by ring
   rw [this]
 end semiring
+
+/-! non-vacuity: concrete instances of the hypotheses / the instances evaluated -/
+example : sumExpr (fun i => (i : Int) + 1) 11 4 = 66 := by decide
+example : prodExpr (fun i => (i : Int) + 1) 5 2 = 120 := by decide
+example : tensorSum (fun i => (i : Int) + 1) 1 4 = 1 ∧ tensorProd (fun i => (i : Int) + 2) 7 4 = 40320 := by decide
+example : norm2Expr true (fun i => (i : Int)) 20 1 = 2470 ∧ norm2Tensor false (fun i => (i : Int)) 20 2 = 2470 := by decide
+example : Reduce.inner (fun i => (i : Int)) (fun _ => (2 : Int)) 19 2 = 342 := by decide
+example : Reduce.trace (fun i => (i : Int)) 3 = 12 ∧ Reduce.traceExpr (fun i => (i : Int)) 3 = 12 := by decide
 
 /-- lazy expressions: lane `l` of the vector evaluation `eval<T>(p)` of any expression tree is the scalar evaluation
     at `p + l` (C02), so the reductions of an expression are the reductions of `term = evalS e` -/
@@ -571,6 +580,11 @@ theorem detLU_correct {n : Nat} (A L U : Matrix (Fin n) (Fin n) R) (sw : List (E
     simp [this, he.neg_one_pow]
   · have : sw.length % 2 = 1 := Nat.odd_iff.1 ho
     simp [this, ho.neg_one_pow]
+
+/-- non-vacuity of `detLU_correct`: `A = [[0,1],[1,0]]`, one row swap, `L = U = 1`: the hypotheses hold and `detLU = -1 = det A` -/
+example : detLU 1 (fun _ => (1 : Int)) 2 2 = -1 := by decide
+example : (Matrix.of ![![(0 : Int), 1], ![1, 0]]).submatrix ([Equiv.swap (0 : Fin 2) 1].prod) id = (1 : Matrix (Fin 2) (Fin 2) Int) * 1 := by
+  ext i j; fin_cases i <;> fin_cases j <;> simp
 
 /-- `determinant<QR>` as written is `product(diag(R))`; with `R_ii = sqrt(…) ≥ 0` it cannot be negative: the sign of
     the determinant is lost (known finding QRSIGN; replayed by the `detqr … sgn=neg` cases) -/
